@@ -299,6 +299,9 @@ func (g Gateway) Set(ctx context.Context, in *hydrapb.SetRequest) (*hydrapb.SetR
 					// check the treasure and skip if it exists
 					continue
 				}
+				if verifhook.Enabled {
+					verifhook.Point("gw.set.tested", item.Key)
+				}
 
 				// anonymous function to handle the treasure
 				func() {
